@@ -537,7 +537,13 @@ func verifC11RunSeq(t *testing.T, seq verifC11Seq, emit func(verifC11Line)) {
 					}
 				}
 			case "restart":
-				// clean shutdown and a new Manager on the same directories: the tag table must come back as it was
+				// clean shutdown and a new Manager on the same directories: the tag table must come back as it was.
+				// The old Manager must be quiescent first: Close() neither waits for background jobs nor stops the
+				// service loop, and in one process a job of the CLOSED manager that completes later saves ITS (old)
+				// table with a newer Saved stamp, which the next start would prefer (in the real program the process
+				// ends after Close).  A crash with jobs in flight is C12's subject, in separate processes.
+				gates.releaseAll()
+				settle()
 				mgr.Close()
 				m2, err := New(d["pcap"], d["index"], d["snapshot"], d["state"], d["converter"], d["watch"])
 				if err != nil {
